@@ -62,6 +62,13 @@ def J(test, checks=None, shards=1, race=False, env=None, procs=None, timeout=900
 
 
 PROPS = {
+    "C09": dict(
+        level="exploration",
+        rule="rapid state machines for each of the eight generated joins and IngressPods (drawn per case): one fake API server per side (three for the double join), typed base controllers whose first lists are gated in generated combinations and released in generated order, the join created before the releases; operations: source put/delete over 2 namespaces x 3 names with selectors {absent, empty, labels, In/NotIn/Exists/DoesNotExist, template labels} (ingress: default backend and paths), destination put/delete over 2 namespaces x 6 names x label maps, (double join) service put/delete, check, and create/close cycles of the join over the long-lived bases. Oracle at checks: after a destination-side double marker the join cache must converge, without any further source event, to the reference selection (bounded wait); then, after a source-side probe barrier: join cache == reference selection computed with the C19 ownership predicates over the servers' state; strict mirror of the join's Events() == cache; join not Ready() and silent before both bases are ready; after Close(): Done, goroutines created by the library back at the bases' own footprint, each base still delivers a fresh event to a fresh subscriber; at the end zero library goroutines. Non-trivial = source changes that add and source changes that remove destination objects (in one step or in separate steps) and >= 1 create/close cycle; distinct = (join, history).",
+        assumptions=["RCPods: sources and destination objects are kept in one namespace because of the recorded finding C19/rc-podsfilter-ignores-namespace (excluded by construction, counted)", "a check whose first comparison differs is given until the wedge bound to converge (the property speaks of the quiescent state); persistent differences are violations"],
+        quick=[J("TestC09_Joins", checks=60, shards=12, procs=[2, 4, 8, 16])],
+        thorough=[J("TestC09_Joins", checks=2500, shards=16, procs=[1, 2, 4, 8, 16], timeout=2400)],
+    ),
     "C14": dict(
         level="fault_enumeration",
         rule="(a) list faults: failure kind in {List error, (nil,nil), non-list object, meta.List without Items, list of non-objects} x k in 1..5 (the k-th list fails; lists gated, period 1.5 ms) x a rapid-generated tree of 0-7 descendants (all attach kinds, monitors) built before or after the first list, with traffic and checked barriers between the successful lists; oracle: Done() closes, Error() non-nil (errors.Is the injected error), Ready() closed iff k > 1, lists 1..k-1 applied, every descendant done with Events() closed, no library goroutine left. (b) watch faults: histories with up to 2 (thorough 4) faults from {abrupt close, frame without object, streak of 1-2 connect errors} plus per-session plans of status / bookmark / unknown-type frames; oracle: not done and Error()==ErrRunning right after the fault and after the reconnect, the tree converges through the watch (checked barrier), one List call only; then Close() => Error()==nil, or context cancel => Done and Error() nil or context.Canceled. Non-trivial = list fault at k >= 2 with >= 3 descendants, or >= 2 different watch fault kinds plus non-object frames; distinct = hash of (fault, k, history).",
@@ -99,11 +106,13 @@ PROPS = {
     ),
     "C12": dict(
         level="fault_enumeration",
-        rule="shutdown-point enumeration: a rapid-drawn workload of n <= 14 steps (release of the gated first list, server changes, attaches of all kinds incl. monitors, refilters, node closes, stalled consumers, server-side watch disconnects with connect errors (retry timer pending), relists left pending at the gate) is re-run n+1 times on fresh worlds and the shutdown trigger {Close, 4 concurrent Close, context cancel, list error} is fired after step k for every k in 0..n, with up to 5 generated API calls {Subscribe*, Clone*, Refilter, NewMonitor, Close, Cache().List/Get} racing with it and all ten call kinds re-issued on every node after Done. Oracle: Close() returns and Done() closes within the wedge bound; every node done; zero goroutines created by library code (context still live unless it was the trigger); every call returns ErrNotRunning or a value; objects obtained while racing become done. Non-trivial = some shutdown point hit a pending relist, a pending reconnect timer, concurrent Close calls, or a not-yet-ready root with racing API calls; distinct = (trigger, gating, workload).",
+        rule="shutdown-point enumeration: a rapid-drawn workload of n <= 14 steps (release of the gated first list, server changes, attaches of all kinds incl. monitors, refilters, node closes, stalled consumers, server-side watch disconnects with connect errors (retry timer pending), relists left pending at the gate; in a second job: a server-side disconnect followed by the real-time wait for the watcher's reconnect, shutdown points enumerated from there on) is re-run n+1 times on fresh worlds and the shutdown trigger {Close, 4 concurrent Close, context cancel, list error} is fired after step k for every k in 0..n, with up to 5 generated API calls {Subscribe*, Clone*, Refilter, NewMonitor, Close, Cache().List/Get} racing with it and all ten call kinds re-issued on every node after Done. Oracle: Close() returns and Done() closes within the wedge bound; every node done; zero goroutines created by library code (context still live unless it was the trigger); every call returns ErrNotRunning or a value; objects obtained while racing become done. Non-trivial = some shutdown point hit a pending relist, a pending reconnect timer, concurrent Close calls, or a not-yet-ready root with racing API calls; distinct = (trigger, gating, workload).",
         assumptions=["the fake client returns from List/Watch once its context is cancelled (the property's premise)", "wedge bound 10 s, confirmed once with 25 s more, against sub-millisecond normal latencies"],
-        quick=[J("TestC12_ShutdownPoints", checks=120, shards=8, procs=[2, 4, 8, 16])],
+        quick=[J("TestC12_ShutdownPoints", checks=120, shards=8, procs=[2, 4, 8, 16]),
+               J("TestC12_ShutdownPoints", checks=2, shards=24, par=48, env={"VERIF_C12_RECONNECT": "1"}, shrink="5s")],
         thorough=[J("TestC12_ShutdownPoints", checks=2500, shards=16, procs=[1, 2, 4, 8, 16], timeout=2400),
-                  J("TestC12_ShutdownPoints", checks=600, shards=4, env={"GODEBUG": "asynctimerchan=1"}, timeout=2400)],
+                  J("TestC12_ShutdownPoints", checks=600, shards=4, env={"GODEBUG": "asynctimerchan=1"}, timeout=2400),
+                  J("TestC12_ShutdownPoints", checks=25, shards=48, par=64, env={"VERIF_C12_RECONNECT": "1"}, shrink="5s", timeout=2400)],
     ),
     "C11": dict(
         level="exploration",
